@@ -44,6 +44,8 @@ SCRIPTS = {
     # the screen is stopped and started again while the loop runs (shelling out); a key handler swaps the top widget while later keys of the same read are pending
     "restart": [("keys", b"a"), ("keys", F5), ("keys", b"k"), ("keys", F8)],  # the f5 handler restarts the screen
     "burst-swap": [("keys", F5 + b"k" + b"j"), ("keys", F8)],
+    # a key opens (then closes) a pop-up and a mouse press on its rectangle follows in the same read
+    "popup": [("keys", b"p" + PRESS + RELEASE), ("keys", b"c" + PRESS + RELEASE), ("keys", F8)],
 }
 # what the script sends, as the keys urwid names
 EXPECT = {
@@ -55,6 +57,7 @@ EXPECT = {
     "swap": ["a", "k", "f5", "f8"],
     "restart": ["a", "f5", "k", "f8"],
     "burst-swap": ["f5", "k", "j", "f8"],
+    "popup": ["p", "(mouse press", "(mouse release", "c", "(mouse press", "(mouse release", "f8"],
 }
 
 
@@ -183,6 +186,32 @@ def session(cfg, inject_at=None, kind=None):
     w = urwid.Filler(ProbeEdit("x:"), "top")
     w2 = urwid.Filler(ProbeEdit("y:"), "top")
     w2.original_widget.tag = 2
+    if script_name == "popup":
+        w3 = ProbeEdit("z:")
+        w3.tag = 3
+
+        class Launcher(urwid.PopUpLauncher):
+            def keypress(self, size, key):
+                if key in ("p", "c"):
+                    calls.append(("widget", 1))
+                    site("keypress:" + key)
+                if key == "p":
+                    calls.append(("popup", "open"))
+                    self.open_pop_up()
+                    return None
+                if key == "c":
+                    calls.append(("popup", "close"))
+                    self.close_pop_up()
+                    return None
+                return super().keypress(size, key)
+
+            def create_pop_up(self):
+                return urwid.Filler(w3, "top")
+
+            def get_pop_up_parameters(self):
+                return {"left": 0, "top": 0, "overlay_width": 6, "overlay_height": 1}
+
+        w = urwid.Filler(Launcher(ProbeEdit("x:")), "top")
 
     def filt(keys, raw_):
         site("filter")
@@ -440,6 +469,17 @@ def judge_clean(ctx, cfg, r):
             V("topmost-widget", f"after loop.widget was replaced the old widget still got {old_used}", "popups" if popups else "plain")
         elif not any(c == ("widget", 2) for c in after):
             V("topmost-widget", "after loop.widget was replaced the new widget was never rendered or offered a key", "popups" if popups else "plain")
+    # ---- a pop-up opened by a key is on top for the mouse press that follows in the same read, and gone again after the key that closes it
+    if script_name == "popup" and popups:
+        state = None
+        for i, c in enumerate(calls):
+            if isinstance(c, tuple) and c[0] == "popup":
+                state = c[1]
+            elif isinstance(c, str) and c.startswith("mouse:mouse press") and state is not None:
+                tag = calls[i - 1][1] if i and isinstance(calls[i - 1], tuple) and calls[i - 1][0] == "widget" else None
+                want_tag = 3 if state == "open" else 1
+                if tag != want_tag:
+                    V("topmost-widget", f"mouse press after the pop-up was {state}{'ed' if state == 'open' else 'd'} in the same read went to widget {tag}, expected {want_tag}", "popup-" + state)
     # ---- redraw before the loop next waits: a draw between two consecutive input batches
     idx = [k for k, c in enumerate(calls) if c == "filter"]
     for a, b in zip(idx, idx[1:]):
@@ -514,7 +554,7 @@ def configs(tier):
         for script in SCRIPTS:
             if tier == "quick" and loopname not in ("select", "asyncio") and script not in ("burst", "resize-pipe"):
                 continue
-            if tier == "quick" and script in ("split-esc", "swap", "restart", "burst-swap") and loopname != "select":
+            if tier == "quick" and script in ("split-esc", "swap", "restart", "burst-swap", "popup") and loopname != "select":
                 continue
             for popups in (False, True):
                 for paste in (False, True):
@@ -527,6 +567,7 @@ def configs(tier):
     out.append(("swap", "select", False, True, False, "default"))
     out.append(("restart", "select", False, False, False, "default"))
     out.append(("burst-swap", "select", False, True, False, "default"))
+    out.append(("popup", "select", False, True, False, "default"))
     out.append(("burst", "select", False, True, True, "default"))
     out.append(("mouse-alarm", "select", False, False, True, "custom"))
     return out
@@ -545,9 +586,9 @@ def run(tier, R):
         "traces_validated_against_impl": ev,
         "evaluations": ev,
         "distinct_nontrivial": nt,
-        "rule": f"{len(cfgs)} configurations (8 scripts: keys / a burst of three keys in one read / mouse press+release, alarm / resize, pipe write, watched descriptor / an escape "
+        "rule": f"{len(cfgs)} configurations (9 scripts: keys / a burst of three keys in one read / mouse press+release, alarm / resize, pipe write, watched descriptor / an escape "
         "sequence split over two reads followed by a pause longer than the escape time-out / the application replacing loop.widget mid-session / the screen stopped and started again while the loop runs / a key handler replacing "
-        "loop.widget while later keys of the same read are pending; x "
+        "loop.widget while later keys of the same read are pending / a key opening, later closing, a pop-up with a mouse press on its rectangle in the same read; x "
         "select, asyncio, tornado, twisted, trio, zmq; raw Screen with hook_event_loop and a wrapper without it; pop_ups; bracketed paste + focus reporting; default and custom "
         "SIGWINCH/SIGTSTP/SIGCONT handlers); per configuration one clean session, then one session per callback-site invocation index (input filter, keypress, mouse_event, "
         "unhandled_input, alarm, watch, pipe, render in the idle redraw) x {ExitMainLoop, an Exception subclass, SystemExit}; every session in its own forked process over "
